@@ -423,7 +423,7 @@ inline Interval operator-(const Interval& a, const Interval& b)
 {
     const bool u = a.maybe_nan || b.maybe_nan ||
         (a.lower() == -INFINITY && b.lower() == -INFINITY) ||
-        (a.upper() == -INFINITY && b.upper() == -INFINITY);
+        (a.upper() == INFINITY && b.upper() == INFINITY);
     return Interval(a.i - b.i, u);
 }
 
